@@ -54,7 +54,12 @@ res["confirmed"] = bool(res["patch_applies"] and rc0 == 0 and res.get("demo_with
 dst = os.path.join("/verif/seeded", pid)
 os.makedirs(dst, exist_ok=True)
 for f in os.listdir(src):
-    shutil.copy(os.path.join(src, f), os.path.join(dst, f))
+    a, b = os.path.join(src, f), os.path.join(dst, f)
+    if os.path.isdir(a):
+        shutil.rmtree(b, ignore_errors=True)
+        shutil.copytree(a, b, ignore=shutil.ignore_patterns("target"))
+    else:
+        shutil.copy(a, b)
 meta["coordinator_check"] = res
 meta["what_was_run"] = ["%s (without patch: must pass)" % demo, "git apply patch.diff",
                         "cargo nextest run --workspace --no-fail-fast --offline (25 pre-existing failures only)",
